@@ -55,9 +55,13 @@ def generate(request: typing.BinaryIO, output: typing.BinaryIO) -> None:
     # This generator uses a slightly different mechanism for determining
     # which files to generate; it tracks at package level rather than file
     # level.
-    package = os.path.commonprefix(
-        [p.package for p in req.proto_file if p.name in req.file_to_generate]
-    ).rstrip(".")
+    packages = [p.package for p in req.proto_file if p.name in req.file_to_generate]
+    package = os.path.commonprefix(packages).rstrip(".")
+    # `commonprefix` compares characters, not package segments: drop a
+    # trailing partial segment (e.g. `foo.v1.a` for `foo.v1.admin` and
+    # `foo.v1.alerts`).
+    if any(p != package and not p.startswith(package + ".") for p in packages):
+        package = package.rpartition(".")[0]
     if verif_trace.ENABLED:
         verif_trace.emit(
             "Package",
